@@ -149,7 +149,19 @@ def target_line_loop():
         c.oblige("token-location-is-the-matched-slice", z3.And(pyvc.zint(loc[1][0]) == ln, pyvc.zint(loc[1][1]) == off + 1, pyvc.zint(loc[2][0]) == ln,
                                                              pyvc.zint(loc[2][1]) == off + cands[w][2] + 1), detail=repr(loc)[:200])
     paths = eng.explore(harness)
-    return pyvc.collect(paths, "_tokenize_line.loop-body"), sum(1 for p in paths if p.covered)
+    obs = pyvc.collect(paths, "_tokenize_line.loop-body")
+    # Frame (read-set) obligation behind the table abstraction: the contract replaces the module's two pattern tables by small
+    # stand-ins, which is only sound while the loop body reads no OTHER module-level state (a second table derived from the
+    # real ones, a helper that knows the real patterns).  If it does, nothing above may be counted as proved: undecided.
+    import builtins
+    local_names = {a.arg for a in info.node.args.args} | {n.id for n in ast.walk(info.node) if isinstance(n, ast.Name) and isinstance(n.ctx, (ast.Store, ast.Del))} \
+        | {a.arg for n in ast.walk(info.node) if isinstance(n, ast.Lambda) for a in n.args.args}
+    read = {n.id for st in loop.body for n in ast.walk(st) if isinstance(n, ast.Name) and isinstance(n.ctx, ast.Load)}
+    other = sorted(x for x in read - local_names - {"LITERAL_TOKEN_PATTERNS", "REGEX_TOKEN_PATTERNS", "parser_types", "error"} if not hasattr(builtins, x))
+    obs.append(core.Obligation("_tokenize_line.loop-body.frame:reads-no-module-state-but-the-two-pattern-tables", core.PROVED if not other else core.UNKNOWN, "syntactic", 0.0,
+                               detail=("the loop body also reads %s: the stand-in tables of this contract no longer determine its behaviour, so the clauses above are not a proof of the real loop "
+                                       "(the bounded comparison with the documented table decides)" % other) if other else "module-level names read: the two tables, parser_types, error"))
+    return obs, sum(1 for p in paths if p.covered)
 
 
 def replay_line_loop(name, model):
